@@ -19,7 +19,7 @@ pub fn plan() -> Plan {
         meta: Meta {
             property: "C07",
             level: "exploration",
-            rule: "four monitors on histories that mix data operations, every lifecycle/maintenance call, restarts with external damage (index removal, blob truncated mid-record / in its header, flipped record-header byte, zero-length blob, foreign garbage blob file => quarantines) and injected I/O failures (failed/short blob write, failed sync, failed create): (1) byte snapshots of every *.blob in the work dir and in corrupted/ after every step: the previous content must be a prefix of the current one, a file that left the work dir must sit byte-identical in corrupted/, quarantined files never change or vanish; (2) I/O tap: every write to a blob lands at or beyond the previous end of stored bytes, no positional rewrite / truncate / remove of a blob, a blob is renamed only into corrupted/ and never over an existing file, no create() of a blob that already holds bytes; (3) every created blob uses an id never carried by a file in the directory (incl. quarantined); (2b) the same write-offset rule on a concurrent scenario (6-24 writer tasks with 40 B..300 KB values on one fresh or reopened blob, one write delayed by a failpoint); (4) with the worker quiescent, the tap window of a full query pass (read, contains, read_all*, read_with, filters, counters) contains no write/create/truncate/rename/remove. Non-trivial = history with a quarantine, an injected fault or >=2 blobs; distinct = hash(history, damage plan).",
+            rule: "four monitors on histories that mix data operations, every lifecycle/maintenance call, restarts with external damage (index removal, blob truncated mid-record / in its header, flipped record-header byte, zero-length blob, foreign garbage blob file => quarantines) and injected I/O failures (failed/short blob write, failed sync, failed create), a quarter of them with ignore_corrupted (damaged blobs stay in place, their ids stay taken): (1) byte snapshots of every *.blob in the work dir and in corrupted/ after every step: the previous content must be a prefix of the current one, a file that left the work dir must sit byte-identical in corrupted/, quarantined files never change or vanish; (2) I/O tap: every write to a blob lands at or beyond the previous end of stored bytes, no positional rewrite / truncate / remove of a blob, a blob is renamed only into corrupted/ and never over an existing file, no create() of a blob that already holds bytes; (3) every created blob uses an id never carried by a file in the directory (incl. quarantined); (2b) the same write-offset rule on a concurrent scenario (6-24 writer tasks with 40 B..300 KB values on one fresh or reopened blob, one write delayed by a failpoint); (4) with the worker quiescent, the tap window of a full query pass (read, contains, read_all*, read_with, filters, counters) contains no write/create/truncate/rename/remove. Non-trivial = history with a quarantine, an injected fault or >=2 blobs; distinct = hash(history, damage plan).",
             assumptions: vec!["snapshots are taken after a worker barrier (no in-flight I/O)", "thorough tier adds a hook-independent strace view of the same rules (tools/strace_c07.py)", "verdict holds for the histories generated for this seed"],
         },
         shards: 16,
